@@ -220,6 +220,61 @@ Section WithKey.
   End Jail.
 End WithKey.
 
+(** ** Message histories: delivery data in any order, evidence at any time.  The stored evidence
+    list depends on the evidence submissions alone -- reporting an error or a delivery never touches
+    it -- so everything proved about [msg_of_submissions] carries over. *)
+Lemma history_evs_from ops : forall m,
+  pm_evs (fold_left msg_step ops m) = fold_left add_evidence (submissions ops) (pm_evs m).
+Proof.
+  induction ops as [|o r IH]; intros m; [reflexivity|].
+  cbn [fold_left submissions flat_map]. rewrite IH. destruct o as [e| |]; cbn [msg_step app].
+  - reflexivity.
+  - destruct (pm_error m || pm_public m); reflexivity.
+  - destruct (pm_public m); reflexivity.
+Qed.
+
+Theorem history_evidence_is_stored_submissions ops :
+  pm_evs (msg_of_history ops) = stored_evidence (submissions ops).
+Proof. unfold msg_of_history, stored_evidence. now rewrite history_evs_from. Qed.
+
+(** the evidence list only grows, or replaces a proof per validator: whoever is in it stays in it *)
+Lemma step_keeps_voters m o v : In v (voters m) -> In v (voters (msg_step m o)).
+Proof.
+  unfold voters. destruct o as [e| |]; cbn [msg_step].
+  - cbn [pm_evs]. intros H. apply vals_add_in. now left.
+  - destruct (pm_error m || pm_public m); trivial.
+  - destruct (pm_public m); trivial.
+Qed.
+
+Theorem evidence_never_lost ops later v :
+  In v (voters (msg_of_history ops)) -> In v (voters (msg_of_history (ops ++ later))).
+Proof.
+  unfold msg_of_history. rewrite fold_left_app. generalize (fold_left msg_step ops empty_msg) as m.
+  induction later as [|o r IH]; intros m H; [exact H|]. cbn [fold_left]. apply IH. now apply step_keeps_voters.
+Qed.
+
+Lemma history_voters ops v : In v (voters (msg_of_history ops)) <-> In v (map ev_val (submissions ops)).
+Proof.
+  unfold voters. rewrite history_evidence_is_stored_submissions.
+  exact (stored_evidence_members (submissions ops) v false false).
+Qed.
+
+Lemma history_same_calls {K : Type} (keqb : K -> K -> bool) (gk : Z -> Z -> K) (ord : list (@group K) -> list (@group K)) sn ops :
+  prune_calls keqb gk ord sn (msg_of_history ops)
+  = prune_calls keqb gk ord sn (msg_of_submissions (pm_public (msg_of_history ops)) (pm_error (msg_of_history ops)) (submissions ops)).
+Proof.
+  unfold Prune.prune_calls, delivered, below_floor, silent, voters, msg_of_submissions. cbn [pm_public pm_error pm_evs].
+  now rewrite history_evidence_is_stored_submissions.
+Qed.
+
+Theorem supplier_at_any_time_not_called {K : Type} (keqb : K -> K -> bool) (gk : Z -> Z -> K) (ord : list (@group K) -> list (@group K)) sn ops v :
+  In v (map ev_val (submissions ops)) -> ~ In v (prune_calls keqb gk ord sn (msg_of_history ops)).
+Proof. intros H. rewrite history_same_calls. now apply submitter_not_called. Qed.
+
+Theorem history_floor {K : Type} (keqb : K -> K -> bool) (gk : Z -> Z -> K) (ord : list (@group K) -> list (@group K)) sn ops :
+  10 * attested_power sn (submissions ops) < sn_total sn -> prune_calls keqb gk ord sn (msg_of_history ops) = [].
+Proof. intros H. rewrite history_same_calls. now apply floor_counts_each_attester_once. Qed.
+
 (** ** Examples (non-vacuity), with the ideal pair key. *)
 Definition xkey (tag data : Z) : Z * Z := (tag, data).
 Definition xkeqb (a b : Z * Z) : bool := (fst a =? fst b) && (snd a =? snd b).
@@ -264,3 +319,14 @@ Example resent_evidence_appended_would_jail :
   attested_power xsn6 [xev 1 0 7; xev 1 0 7] = 6 /\
   prune_calls xkeqb xkey (fun g => g) xsn6 (msg_of_submissions true false [xev 1 0 7; xev 1 0 7]) = [].
 Proof. repeat split; reflexivity. Qed.
+
+(** Why nothing may clear the list: error reported, validators 1..3 attest it, delivery reported and
+    (as in seeded change L) the list cleared, validator 4 attests: 1..3 would be handed to Jail. *)
+Example cleared_evidence_would_jail_attesters :
+  prune_calls xkeqb xkey (fun g => g) xsn {| pm_public := true; pm_error := true; pm_evs := [xev 4 0 7] |}
+    = [1; 2; 3; 5; 6; 7; 8; 9; 10] /\
+  prune_calls xkeqb xkey (fun g => g) xsn
+    (msg_of_history [MSetError; MEvidence (xev 1 1 9); MEvidence (xev 2 1 9); MEvidence (xev 3 1 9); MSetPublic; MEvidence (xev 4 0 7)])
+    = [5; 6; 7; 8; 9; 10].
+Proof. split; reflexivity. Qed.
+
